@@ -556,6 +556,7 @@ def random_trace(seed, tid, workdir, props):
     # the map captures the construction conformations: later changes to the objects it was built from
     # (before its first use, too) must not matter.  From here on `refmol` is a copy holding the reference conformation.
     built_from = refmol
+    ref_is_built_from = True
     if rng.random() < 0.5 or n < 3:
         refmol = built_from.copy()
     else:
@@ -563,6 +564,7 @@ def random_trace(seed, tid, workdir, props):
         # order (and direction): the species is the same, so is the map
         shuffled = [(b_ if rng.random() < 0.5 else b_[::-1]) for b_ in (bonds[int(k_)] for k_ in rng.permutation(len(bonds)))]
         refmol = synth.make_molecule(os.path.join(workdir, 'rr2'), 'RREF', names, shuffled, np.round(pos, 3), residues=res_ref)
+        ref_is_built_from = True
     refmol.atoms_positions = pos
     if rng.random() < 0.5:
         tgt.atoms_positions = tpos @ _random_rotation(rng).T + rng.normal(size=3) * 3
@@ -628,6 +630,10 @@ def random_trace(seed, tid, workdir, props):
             tau = rng.uniform(-50, 50, 3) * rng.choice([0.0, 0.1, 1.0])
             ref2 = refmol.copy()
             ref2.atoms_positions = pos @ R.T + tau
+            if ref_is_built_from and rng.random() < 0.4:
+                # the very molecule the map was built with, moved in place, is an argument like any other
+                built_from.atoms_positions = pos @ R.T + tau
+                ref2 = built_from
             if rng.random() < 0.3:
                 m.scale_factor = s          # the public attribute written again with the value it has: nothing may change
             out2 = m(ref2).atoms_positions
